@@ -7,6 +7,7 @@ place of `exp` (only `E (x + y) = E x * E y` and `0 < E x` are used, where state
 explicit side conditions.
 -/
 import StirVerif.C13.Proofs
+import StirVerif.C13.ProofsHistory
 import Mathlib.Analysis.Complex.Exponential
 
 namespace StirVerif.C13
@@ -107,7 +108,9 @@ theorem C13_chain_eff_prod (E : K → K) (ns : List (Norm K)) (b : Bin) :
   ⟨trueEff_chainOf E ns b, fun es h => reported_chainOf ns b es h, fun n hn h => reported_chainOf_none ns b n hn h⟩
 
 /-- binary chains (the class itself): product, independent of the order of the members (the correspondence now also
-    runs chains with a null member on either side, for which see `C13_chain_null_member`) -/
+    runs chains with a null member on either side, for which see `C13_chain_null_member`; and, since the third extension,
+    nested chains that are set up again after their members' factors were changed in place / for another geometry: only the
+    outer chain's `set_up` is called, the model is given the members as they are then) -/
 theorem C13_chain_binary (E : K → K) (n1 n2 : Norm K) (b : Bin) :
     trueEff E (.chained n1 n2) b = trueEff E n1 b * trueEff E n2 b ∧
       trueEff E (.chained n1 n2) b = trueEff E (.chained n2 n1) b := by
@@ -245,7 +248,11 @@ theorem C13_tof_data_nontof_factor (E : K → K) (floor : K) (f : Bin → K) (b 
     line integrals along the lines of response": `apply` multiplies by `E` of `Σ_j (a_bj · vx) · (μ_j / 10)` — the
     matrix elements `a_bj` are lengths in units of the x voxel size `vx` (mm), `μ_j / 10` is the attenuation in mm^-1.
     (The correspondence runs the class with a ray-tracing matrix projector and, since the extension, with its default
-    projector `ForwardProjectorByBinUsingRayTracing`; in both cases the rows are data from a separate matrix object.) -/
+    projector `ForwardProjectorByBinUsingRayTracing`; in both cases the rows are data from a separate matrix object.
+    Since the third extension the correspondence also runs attenuation images with NON-SQUARE in-plane voxels
+    (x : y = 1.5 and 1.1, both ways round, z different from both): `vx` is the X voxel size, so a rescale of the map with
+    the y size is a disagreement on every row; and attenuation objects that are set up again for other geometries.
+    For the expectation without matrix rows see `C13_atten_box_interval` / `C13_atten_box_acf`.) -/
 theorem C13_atten_is_exp_line_integral (E : K → K) (floor vx : K) (row : Bin → List (K × K)) (b : Bin) (v : K) :
     apply E floor (.fromAtten vx row) b v = some (v * E (((row b).map fun p => (p.1 * vx) * (p.2 / 10)).sum)) ∧
       trueEff E (.fromAtten vx row) b = 1 / E (((row b).map fun p => (p.1 * vx) * (p.2 / 10)).sum) := by
@@ -261,6 +268,121 @@ theorem C13_atten_beer_lambert (E : K → K) (hadd : ∀ x y, E (x + y) = E x * 
   · rw [(C13_atten_is_exp_line_integral E floor vx row b v).1, E_sum hadd hpos, List.map_map]
     rfl
   · exact hpos _
+
+
+/-! ### one object set up several times (the harness runs such histories on ONE object of every class) -/
+
+/-- "undoing the normalisation multiplies each bin by … its efficiency, which equals the efficiency the object reports … a
+    normalisation that reports itself trivial changes nothing" — for a `BinNormalisationPETFromComponents` object that is
+    RE-USED: whatever the object held before (never set up, set up for other factors, for another geometry), `set_up` on an
+    allocated object succeeds and leaves an object whose `is_trivial`, `get_bin_efficiency`, `undo` and `apply` are those of
+    the component arrays as they are at that call (`c`); so every theorem above about `Norm.fromComponents c` applies to the
+    re-used object.  (`set_up` recomputes `_is_trivial` AND rebuilds the efficiency data, both unconditionally.) -/
+theorem C13_components_set_up_refreshes (E : K → K) (floor tol : K) (o : CompObj K) (c : Components K)
+    (h : o.allocated = true) :
+    ∃ o', o.setUp tol c = some o' ∧ o'.allocated = true ∧ o'.isTrivial = some (isTrivial tol (.fromComponents c)) ∧
+      ∀ b v, o'.reported b = reported (.fromComponents c) b ∧ o'.undo b v = undo E (.fromComponents c) b v ∧
+        o'.apply b v = apply E floor (.fromComponents c) b v := by
+  have hs : o.setUp tol c = some { o with setUpDone := true, trivialFlag := c.isTrivial tol, invnorm := c.invnorm } := by
+    simp [CompObj.setUp, h]
+  exact ⟨_, hs, (compObj_setUp_eq tol _ _ c hs).1, compObj_observe_of_setUp E floor tol _ _ c hs⟩
+
+/-- the same for whole histories: after ANY sequence of `allocate` / `set_up` calls on a new object that ends with a
+    `set_up` for the arrays `c` (and in which no call failed), the object answers exactly as a fresh object that was
+    allocated and set up once; and a `set_up` without any `allocate` before it is refused -/
+theorem C13_components_history (E : K → K) (floor tol : K) (hs : List (CompStep K)) (c : Components K) (o : CompObj K)
+    (h : CompObj.run tol CompObj.new (hs ++ [.setUp c]) = some o) :
+    (∃ o₀, CompObj.run tol CompObj.new [.allocate, .setUp c] = some o₀ ∧ o₀.isTrivial = o.isTrivial ∧
+        ∀ b v, o₀.reported b = o.reported b ∧ o₀.undo b v = o.undo b v ∧ o₀.apply b v = o.apply b v) ∧
+      o.isTrivial = some (isTrivial tol (.fromComponents c)) ∧
+      (∀ b v, o.reported b = reported (.fromComponents c) b ∧ o.undo b v = undo E (.fromComponents c) b v ∧
+        o.apply b v = apply E floor (.fromComponents c) b v) ∧
+      CompObj.run tol (CompObj.new : CompObj K) [.setUp c] = none := by
+  rw [compObj_run_append] at h
+  cases h1 : CompObj.run tol CompObj.new hs with
+  | none => simp [h1] at h
+  | some o1 =>
+    simp only [h1, Option.bind_some, CompObj.run] at h
+    cases h2 : o1.setUp tol c with
+    | none => simp [h2] at h
+    | some o2 =>
+      simp only [h2, Option.bind_some, Option.some.injEq] at h
+      subst h
+      obtain ⟨ht, hobs⟩ := compObj_observe_of_setUp E floor tol o1 o2 c h2
+      obtain ⟨o0, hs0, _, ht0, hobs0⟩ := C13_components_set_up_refreshes E floor tol (CompObj.new : CompObj K).allocate c rfl
+      refine ⟨⟨o0, by simp [CompObj.run, hs0], by rw [ht0, ht], fun b v => ?_⟩, ht, hobs, by simp [CompObj.run, CompObj.setUp, CompObj.new]⟩
+      obtain ⟨a1, a2, a3⟩ := hobs b v
+      obtain ⟨b1, b2, b3⟩ := hobs0 b v
+      exact ⟨by rw [b1, a1], by rw [b2, a2], by rw [b3, a3]⟩
+
+/-- "a normalisation that reports itself trivial changes nothing" for a re-used components object (same side conditions as
+    `C13_trivial_id_partial`: tolerance 0, the recorded min/max bound the arrays, in-fan bin) -/
+theorem C13_components_history_trivial_partial (E : K → K) (floor : K) (hs : List (CompStep K)) (c : Components K)
+    (o : CompObj K) (h : CompObj.run 0 CompObj.new (hs ++ [.setUp c]) = some o) (ht : o.isTrivial = some true)
+    (hr : c.RangeOK) (b : Bin) (hb : c.inFan b = true) (v : K) :
+    o.apply b v = some v ∧ o.undo b v = some v ∧ o.reported b = some 1 := by
+  obtain ⟨_, h1, h2, _⟩ := C13_components_history E floor 0 hs c o h
+  rw [h1, Option.some.injEq] at ht
+  obtain ⟨a1, a2, a3⟩ := h2 b v
+  have := C13_trivial_id_partial E floor (.fromComponents c) ht
+    (fun c' hc => by cases hc; exact hr) b (fun c' hc => by cases hc; exact hb) v
+  exact ⟨by rw [a3]; exact this.1, by rw [a2]; exact this.2.1, by rw [a1]; exact this.2.2⟩
+
+/-- `BinNormalisationWithCalibration` re-used: after ANY history of `set_calibration_factor` / `set_radionuclide` / `set_up`
+    calls, a final `set_up` leaves an object whose efficiency, `undo` and `apply` are those of `Norm.calib` with the
+    calibration factor and branching ratio the object holds NOW (the product stored by an earlier `set_up` is replaced) -/
+theorem C13_calibration_history (E : K → K) (floor : K) (hs : List (CalibStep K)) (u : Bin → K) (b : Bin) (v : K) :
+    (CalibObj.run CalibObj.new (hs ++ [.setUp])).reported u b =
+        reported (.calib u (CalibObj.run CalibObj.new hs).calibration (CalibObj.run CalibObj.new hs).branching) b ∧
+      (CalibObj.run CalibObj.new (hs ++ [.setUp])).undo u b v =
+        undo E (.calib u (CalibObj.run CalibObj.new hs).calibration (CalibObj.run CalibObj.new hs).branching) b v ∧
+      (CalibObj.run CalibObj.new (hs ++ [.setUp])).apply floor u b v =
+        apply E floor (.calib u (CalibObj.run CalibObj.new hs).calibration (CalibObj.run CalibObj.new hs).branching) b v := by
+  rw [calibObj_run_append]
+  exact calibObj_observe_setUp E floor _ u b v
+
+/-- … where "holds now" means: the calibration factor is the one given to the last `set_calibration_factor`, which also
+    invalidates the set-up state (`undo`/`apply`/`get_bin_efficiency` are refused until the next `set_up`); the branching
+    ratio is the one of the last `set_radionuclide` (1 if unknown, i.e. `<= 0`), which does NOT invalidate anything: until the
+    next `set_up` the object keeps answering with the product stored by the previous one; `set_up` changes neither -/
+theorem C13_calibration_setters (floor : K) (o : CalibObj K) (c br : K) (u : Bin → K) (b : Bin) (v : K) :
+    (o.setCalibration c).calibration = c ∧ (o.setCalibration c).branching = o.branching ∧
+      (o.setCalibration c).reported u b = none ∧ (o.setCalibration c).undo u b v = none ∧
+      (o.setCalibration c).apply floor u b v = none ∧
+      (o.setRadionuclide br).branching = (if 0 < br then br else 1) ∧ (o.setRadionuclide br).calibration = o.calibration ∧
+      (o.setRadionuclide br).reported u b = o.reported u b ∧
+      o.setUp.calibration = o.calibration ∧ o.setUp.branching = o.branching := by
+  refine ⟨rfl, rfl, ?_, ?_, ?_, rfl, rfl, rfl, rfl, rfl⟩ <;>
+    simp [CalibObj.setCalibration, CalibObj.reported, CalibObj.undo, CalibObj.apply]
+
+/-! ### the attenuation clause without matrix rows: a uniform box -/
+
+/-- "the attenuation correction factors obtained from an attenuation map given in cm^-1 are the exponentials of its line
+    integrals along the lines of response" — the expectation side used for images with NON-SQUARE voxels: for the LOR from
+    `p` to `q`, the parameters `t` kept by `boxInterval` are exactly those `t ∈ [0,1]` for which the point `p + t (q - p)`
+    lies in the box `[x0,x1] × [y0,y1]` (mm); no voxel size, matrix row or projector enters -/
+theorem C13_atten_box_interval (px py qx qy x0 x1 y0 y1 t : K) :
+    ((boxInterval px py qx qy x0 x1 y0 y1).1 ≤ t ∧ t ≤ (boxInterval px py qx qy x0 x1 y0 y1).2) ↔
+      (0 ≤ t ∧ t ≤ 1 ∧ x0 ≤ px + t * (qx - px) ∧ px + t * (qx - px) ≤ x1 ∧
+        y0 ≤ py + t * (qy - py) ∧ py + t * (qy - py) ≤ y1) := by
+  unfold boxInterval
+  rw [slab_iff]
+  have hx := slab_iff px (qx - px) x0 x1 (0, 1) t
+  constructor
+  · rintro ⟨h1, h2, h5, h6⟩
+    obtain ⟨a1, a2, a3, a4⟩ := hx.mp ⟨h1, h2⟩
+    exact ⟨a1, a2, a3, a4, h5, h6⟩
+  · rintro ⟨h1, h2, h3, h4, h5, h6⟩
+    obtain ⟨a, b⟩ := hx.mpr ⟨h1, h2, h3, h4⟩
+    exact ⟨a, b, h5, h6⟩
+
+/-- … and the model's correction factor is `E` of `μ/10` (mm^-1) times the length (mm) of that part of the LOR:
+    `len` × (length of the parameter interval), `E 0` if the LOR misses the box -/
+theorem C13_atten_box_acf (E : K → K) (mu len px py qx qy x0 x1 y0 y1 : K) :
+    acfBox E mu len px py qx qy x0 x1 y0 y1 =
+      E (mu / 10 * (len * (if (boxInterval px py qx qy x0 x1 y0 y1).1 < (boxInterval px py qx qy x0 x1 y0 y1).2
+        then (boxInterval px py qx qy x0 x1 y0 y1).2 - (boxInterval px py qx qy x0 x1 y0 y1).1 else 0))) := by
+  simp [acfBox, boxFraction, ten_eq]
 
 /-! ### non-vacuity: concrete instances satisfying the hypotheses -/
 
@@ -341,6 +463,52 @@ example (fan : Bin → Bool) : (exComp fan).isTrivial 0 = true ∧ (exComp fan).
 example : ({ inFan := fun _ => true, eff := some (fun _ => 1 + 1 / 20000, fun _ => 1 - 1 / 20000), geo := none, block := none,
              effRange := (1 - 1 / 20000, 1 + 1 / 20000), geoRange := (1, 1), blockRange := (1, 1) } : Components ℚ).isTrivial (1 / 10000) = true := by
   simp only [Components.isTrivial, nearOne]; norm_num
+
+/-- a components object re-used: allocated, set up with crystal efficiencies 2 and 3 (efficiency 6 per bin), then — the arrays
+    having been overwritten with ones — set up again: it now reports itself trivial and changes nothing; the hypotheses of
+    `C13_components_history` hold for this history; without `allocate` the first `set_up` is refused -/
+def exCompRandom : Components ℚ :=
+  { inFan := fun _ => true, eff := some (fun _ => 2, fun _ => 3), geo := none, block := none,
+    effRange := (2, 3), geoRange := (1, 1), blockRange := (1, 1) }
+
+example : ∃ o : CompObj ℚ,
+    CompObj.run 0 CompObj.new ([.allocate, .setUp exCompRandom] ++ [.setUp (exComp fun _ => true)]) = some o ∧
+      o.isTrivial = some true ∧ o.undo exBin 5 = some 5 ∧ o.apply exBin 5 = some 5 ∧ o.reported exBin = some 1 := by
+  refine ⟨_, rfl, ?_, ?_, ?_, ?_⟩ <;>
+    simp [CompObj.isTrivial, CompObj.undo, CompObj.apply, CompObj.reported, exComp,
+      Components.isTrivial, Components.invnorm, nearOne, mulSkip, divide0, fdiv]
+
+example : ∃ o : CompObj ℚ, CompObj.run 0 CompObj.new [.allocate, .setUp exCompRandom] = some o ∧
+    o.isTrivial = some false ∧ o.undo exBin 5 = some 30 ∧ o.reported exBin = some 6 ∧
+    CompObj.run 0 (CompObj.new : CompObj ℚ) [.setUp exCompRandom, .allocate] = none := by
+  refine ⟨_, rfl, ?_, ?_, ?_, rfl⟩ <;>
+    simp [CompObj.isTrivial, CompObj.undo, CompObj.reported, exCompRandom,
+      Components.isTrivial, Components.invnorm, nearOne, mulSkip] <;> norm_num
+
+/-- a calibrated object re-used: calibration 2, branching ratio 1/2, set up (efficiency `u/1`); the radionuclide is changed to
+    branching ratio 1/4: still `u/1` (not invalidated) until the next `set_up`, then `u/(1/2)`; after
+    `set_calibration_factor` the object is refused until it is set up again -/
+example :
+    (CalibObj.run (CalibObj.new : CalibObj ℚ) [.setCalibration 2, .setRadionuclide (1 / 2), .setUp]).reported (fun _ => 3) exBin = some 3 ∧
+      (CalibObj.run (CalibObj.new : CalibObj ℚ) [.setCalibration 2, .setRadionuclide (1 / 2), .setUp, .setRadionuclide (1 / 4)]).reported
+        (fun _ => 3) exBin = some 3 ∧
+      (CalibObj.run (CalibObj.new : CalibObj ℚ) [.setCalibration 2, .setRadionuclide (1 / 2), .setUp, .setRadionuclide (1 / 4), .setUp]).reported
+        (fun _ => 3) exBin = some 6 ∧
+      (CalibObj.run (CalibObj.new : CalibObj ℚ) [.setCalibration 2, .setUp, .setCalibration 5]).undo (fun _ => 3) exBin 1 = none ∧
+      (CalibObj.run (CalibObj.new : CalibObj ℚ) [.setRadionuclide (-1), .setCalibration 4, .setUp]).undo (fun _ => 3) exBin 8 = some 6 := by
+  refine ⟨?_, ?_, ?_, ?_, ?_⟩ <;>
+    simp [CalibObj.run, CalibObj.new, CalibObj.setCalibration, CalibObj.setRadionuclide, CalibObj.setUp, CalibObj.reported,
+      CalibObj.undo, fdiv] <;> norm_num
+
+/-- a LOR from (-10, 0) to (10, 0) through the box [-2,3] × [-1,1]: parameters 8/20 … 13/20, a quarter of its length;
+    a LOR parallel to it outside the box, and one parallel to the y axis (`d = 0` in x): nothing / the y extent -/
+example : boxInterval (-10 : ℚ) 0 10 0 (-2) 3 (-1) 1 = (2 / 5, 13 / 20) ∧
+    boxFraction (-10 : ℚ) 0 10 0 (-2) 3 (-1) 1 = 1 / 4 ∧
+    boxFraction (-10 : ℚ) 2 10 2 (-2) 3 (-1) 1 = 0 ∧
+    boxFraction (1 : ℚ) (-10) 1 10 (-2) 3 (-1) 1 = 1 / 10 ∧
+    acfBox (fun x => 1 + x) (1 / 10 : ℚ) 20 (-10) 0 10 0 (-2) 3 (-1) 1 = 1 + 1 / 20 := by
+  refine ⟨?_, ?_, ?_, ?_, ?_⟩ <;>
+    simp [acfBox, boxFraction, boxInterval, slab, cmax, cmin, ten] <;> norm_num
 
 /-- two groupings of the same four bins -/
 example : ([[(⟨0, 0, 0, 0, 0⟩ : Bin), ⟨0, 1, 0, 0, 0⟩], [⟨0, 2, 0, 0, 0⟩, ⟨0, 3, 0, 0, 0⟩]] : List (List Bin)).flatten.Nodup ∧
